@@ -1,4 +1,5 @@
 /* Correspondence harness for the typed register table (C01-C05). */
+#define HARNESS_NOISE
 #include "common.h"
 
 #include <ufw/register-table.h>
@@ -297,6 +298,41 @@ visit_cb(RegisterTable *t, RegisterHandle h, void *arg)
     struct visit *v = arg;
     if (v->nseen < 64) v->seen[v->nseen++] = h;
     return v->idx < v->n ? (int)v->script[v->idx++] : 0;
+}
+
+/* a second table, used between the operations on the table under test */
+static void
+harness_noise(void)
+{
+    static RegisterAtom smem[6];
+    static RegisterArea sareas[2];
+    static RegisterEntry sentries[3];
+    static RegisterTable stable;
+    static unsigned k;
+    if (k % 11 == 0) {
+        memset(sareas, 0, sizeof sareas); memset(sentries, 0, sizeof sentries); memset(&stable, 0, sizeof stable);
+        sareas[0].base = 100; sareas[0].size = 6; sareas[0].flags = REG_AF_READABLE | REG_AF_WRITEABLE;
+        sareas[0].read = reg_mem_read; sareas[0].write = reg_mem_write; sareas[0].mem = smem;
+        sareas[1] = (RegisterArea)REGISTER_AREA_END;
+        sentries[0].type = REG_TYPE_UINT32; sentries[0].address = 100;
+        sentries[0].default_value.u32 = 0xa1b2c3d4u; sentries[0].check.type = REGV_TYPE_TRIVIAL;
+        sentries[1].type = REG_TYPE_UINT16; sentries[1].address = 103;
+        sentries[1].default_value.u16 = 7; sentries[1].check.type = REGV_TYPE_MAX;
+        sentries[1].check.arg.max.u16 = 9;
+        sentries[2] = (RegisterEntry)REGISTER_ENTRY_END;
+        stable.area = sareas; stable.entry = sentries;
+        register_make_bigendian(&stable, k % 2);
+        (void)register_init(&stable);
+    }
+    RegisterValue v = { .type = REG_TYPE_UINT16 };
+    RegisterAtom w[3] = { 0x1111, (RegisterAtom)k, 0x0005 };
+    switch (k++ % 5) {
+    case 0: v.value.u16 = (uint16_t)(k % 13); (void)register_set(&stable, 1, v); break;
+    case 1: (void)register_get(&stable, 0, &v); break;
+    case 2: (void)register_block_write(&stable, 101, 3, w); break;
+    case 3: (void)register_block_read(&stable, 100, 3, w); break;
+    default: (void)register_sanitise(&stable); break;
+    }
 }
 
 static void
